@@ -33,6 +33,12 @@ CLAIMED = {
  "C11": ("single-fault mutation testing: conformant-by-construction data must be accepted, data with exactly one injected violation (20 kinds, any depth) must be rejected, through every schema-taking entry point", "5.11",
          "Generated conformant stores/requests are accepted by all 11 entry points; each of 20 fault kinds is injected alone and every entry point documented to cover the faulted component must reject. Two listed findings (Context::from_json_value leaf validation) are reported as KNOWN-FINDING.",
          "trusted: World-S conformance by construction, fault mutators, fault->entry point table from the API docs"),
+ "C14": ("property-based testing of TPE against concrete completions: partial inputs derived from a concrete world by erasure; residuals, views, reauthorization and permission queries compared with ordinary authorization / brute force", "5.14",
+         "The concrete world is a consistent completion by construction; further completions regenerate the erased parts. Definite decisions, per-policy residual outcomes, agreement of all response views, reauthorize and the three query functions are checked on every completion.",
+         "trusted: World-S conformance, conformant regeneration of erased parts; residuals evaluated by the ordinary authorizer"),
+ "C15": ("property-based testing: loader-driven authorization vs ordinary authorization for every budget 0..n+1, with exact and superset loaders; monotonicity and sufficiency bound", "5.15",
+         "For generated valid policy sets and conformant stores with entity chains and absent entities, every budget's answer is compared with ordinary authorization; only `insufficient iterations` is admissible as an error, decisions are stable under larger budgets and budget n+1 decides.",
+         "trusted: World-S conformance; loader contract (returns the store's data, possibly more)"),
  "C16": ("property-based testing: level-validated policy sets authorized over the full store vs the harness-computed level-n slice (metamorphic equality of responses); monotonicity in n", "5.16",
          "Chain-biased schemas and strictly valid policies with deep access paths; whenever validate_with_level(n) accepts, the smallest store the guarantee speaks about (own RFC-76 slicer) must give the same decision, reasons and error ids.",
          "trusted: harness level slicer, World-S conformance; n <= 4"),
